@@ -99,7 +99,8 @@ class Ctx:
             return
         self.nfail += 1
         if len(self.failures) < MAX_FAIL_KEPT:
-            self.failures.append({"check": check, "args": args, "detail": str(detail)[:1500]})
+            self.failures.append({"check": check, "args": args, "detail": str(detail)[:1500],
+                                  "env": {"PYTHONHASHSEED": os.environ.get("PYTHONHASHSEED", ""), "python_optimize": int(not __debug__)}})
 
     def expect(self, cond, check, args, detail, known=None):
         self.ev()
